@@ -95,19 +95,90 @@ class Observe(Contract):
 
 # ---------------------------------------------------------------------------- State.hosts (assumed, bounded-validated)
 
+@loop_contract
+class StateHostsLoop(LoopContract):
+    """State.hosts: the list built so far is [(address_j, HostVector(view of row j)) for j < k] (probe-based
+    invariant: the symbolic list is queried at an arbitrary index)"""
+    qualname = "nasim.envs.state.State.hosts"
+    ordinal = 0
+    tags = ("C08",)
+
+    def snapshot(self, I, fr, seq):
+        return {"cell": tensor_of(fr.locals["self"]), "T": tensor_of(fr.locals["self"]).content}
+
+    def _canon(self, I, fr, entry, k):
+        sig = I.ext_state["sig"]
+        hv = I.repo.cls(HVQ)
+        cell = entry["cell"]
+        return SymSeq(k, lambda j: (sig.addr(j), Obj(hv, {"vector": NpArr(cell, ival(j))}, fresh=True)), "hosts",
+                      mutable=True)
+
+    def havoc(self, I, fr, entry, seq):
+        k = I.ctx.fresh("hosts_len", z3.IntSort())
+        entry["k"] = k
+        fr.locals["hosts"] = self._canon(I, fr, entry, k)
+        fr.locals.pop("host_addr", None)
+
+    def inv(self, I, fr, entry, seq, k):
+        sig = I.ext_state["sig"]
+        h = fr.locals["hosts"]
+        if isinstance(h, PyList):
+            return [("list-prefix", z3.BoolVal(not h.items))]
+        j = I.ctx.fresh("hosts_probe", z3.IntSort())
+        el = h.elem(j)
+        ok = isinstance(el, tuple) and len(el) == 2 and isinstance(el[1], Obj) and el[1].cls.name == "HostVector" \
+            and isinstance(el[1].fields.get("vector"), NpArr) and el[1].fields["vector"].cell is entry["cell"]
+        if not ok:
+            return [("list-prefix", z3.BoolVal(False))]
+        a = el[0]
+        return [("list-prefix", z3.And(ival(h.n) == k, z3.Implies(z3.And(0 <= j, j < k), z3.And(
+            ival(a[0]) == sig.asub(j), ival(a[1]) == sig.ahid(j), el[1].fields["vector"].row == j)))),
+            ("state-untouched", entry["cell"].content == entry["T"])]
+
+
 @contract
 class StateHosts(Contract):
-    """State.hosts builds a python list by appending in a loop over host_num_map; the unbounded engine
-    has no symbolic list-append, so at call sites the result is ASSUMED to be the list of
-    (address_j, HostVector(view of row j)) in address order; in bounded mode the real loop is executed."""
+    """State.hosts: proved with the loop invariant above; at call sites the result is the canonical list
+    [(address_j, HostVector(view of row j))] in address order"""
     qualname = "nasim.envs.state.State.hosts"
-    verify = False
+    bounded = False
     tags = {"": ("C08",)}
+
+    def setup(self, I, variant):
+        sig, T, st, net, a = dyn_setup(I, None)
+        S = Scope(sig=sig)
+        S.a = {"self": st}
+        S.call_args = ([st], {})
+        return S
 
     def bind(self, I, fi, args, kwargs):
         S = super().bind(I, fi, args, kwargs)
         S.sig = I.ext_state["sig"]
         return S
+
+    def snapshot(self, I, S):
+        S.old["cell"] = tensor_of(S.a["self"])
+        S.old["T"] = tensor_of(S.a["self"]).content
+
+    def ensures(self, I, S):
+        if getattr(S, "callsite", False):
+            return []
+        sig = S.sig
+        h = S.result
+        if not isinstance(h, SymSeq):
+            return [("C08.hosts-list", z3.BoolVal(False))]
+        j = z3.Int("hosts_j")
+        el = h.elem(j)
+        ok = isinstance(el, tuple) and len(el) == 2 and isinstance(el[1], Obj) and \
+            isinstance(el[1].fields.get("vector"), NpArr) and el[1].fields["vector"].cell is S.old["cell"]
+        if not ok:
+            return [("C08.hosts-list", z3.BoolVal(False))]
+        a = el[0]
+        return [("C08.hosts-list", z3.And(ival(h.n) == ival(sig.N), z3.Implies(z3.And(0 <= j, j < ival(sig.N)), z3.And(
+            ival(a[0]) == sig.asub(j), ival(a[1]) == sig.ahid(j), el[1].fields["vector"].row == j))))]
+
+    def frame(self, I, S):
+        return [("C08.state-untouched", S.old["cell"].content == S.old["T"])]
 
     def havoc(self, I, S):
         sig = S.sig
